@@ -1,6 +1,7 @@
 //! Reference models, written from the RFCs / the property statements, independent of attohttpc.
 pub mod chunked;
 pub mod deflate_enc;
+pub mod multipart;
 pub mod proxy;
 pub mod request;
 pub mod urlref;
